@@ -1,3 +1,123 @@
+import PB.Model.Tasks
 import PB.Drv.Loop
-/- Driver stub for C07 (model not built yet): every op is rejected. -/
-def main : IO Unit := PB.Drv.lineLoop (fun _ => "bad-op")
+/-
+Driver for C07: acceptor for recorded traces of the real task scheduler.
+Line forms:  `scn <json>` → `ok`;  `i <now> <info…>` → `-`;
+`e <now> <action…> | <implementation snapshot>` → the model's own snapshot after taking the action
+(the harness compares it with the implementation snapshot), or `reject <reason>` if the action is not
+enabled in the model or its observable result (picked task, check result, fetch result) differs.
+-/
+namespace PB.Drv.C07
+open PB.Tasks
+
+def b01 (b : Bool) : String := if b then "1" else "0"
+
+def ids (l : List Nat) : String :=
+  if l.isEmpty then "-" else ",".intercalate (l.map toString)
+
+def snapTask (k : Task) : String :=
+  s!"c{b01 k.canceled} x{b01 k.executing} o{b01 k.overtime} ea={k.executeAt} md={k.maxDelay} q{b01 k.inQ} p{b01 k.inP} s{b01 k.inS}"
+
+def snapLists (s : St) : String := s!"Q={ids s.queue} P={ids s.prio} S={ids s.sched}"
+
+def both (s : St) (t : Nat) : String := snapTask (s.tasks t) ++ " " ++ snapLists s
+
+def resName : RunRes → String
+  | .stale => "skip-stale" | .executing => "skip-executing" | .inactive => "skip-inactive" | .started => "start"
+
+/-- Take action `a`; on success print with `out`. -/
+def take (s : St) (now : Nat) (a : Act) (out : St → String) : St × String :=
+  match step s now a with
+  | some s' => (s', out s')
+  | none => (s, "reject not-enabled")
+
+def handleEv (s : St) (now : Nat) (w : List String) : St × String :=
+  match w with
+  | ["newinert", k] => match k.toNat? with
+    | some t => take s now (.newInert t) (fun s' => snapTask (s'.tasks t)) | none => (s, "bad-op")
+  | ["queue", k] => match k.toNat? with
+    | some t => take s now (.queue t) (both · t) | none => (s, "bad-op")
+  | ["queuep", k] => match k.toNat? with
+    | some t => take s now (.queueP t) (both · t) | none => (s, "bad-op")
+  | ["asap", who, k] => match k.toNat?, who with
+    | some t, "sh" => take s now (.asap t true) (both · t)
+    | some t, "ex" => take s now (.asap t false) (both · t)
+    | some t, "qh" => take s now (.asap t false) (both · t)
+    | _, _ => (s, "bad-op")
+  | ["maxdelay", k, d] => match k.toNat?, d.toNat? with
+    | some t, some d => take s now (.maxDelay t d) (both · t) | _, _ => (s, "bad-op")
+  | ["schedule", k, x] => match k.toNat?, x.toNat? with
+    | some t, some x => take s now (.schedule t x) (both · t) | _, _ => (s, "bad-op")
+  | ["cancel", k] => match k.toNat? with
+    | some t => take s now (.cancel t) (both · t) | none => (s, "bad-op")
+  | ["qhwait"] => take s now .qhWait snapLists
+  | ["qhpop", k] =>
+    let exp : Option Nat := match s.prio, s.queue with
+      | t :: _, _ => some t
+      | [], t :: _ => some t
+      | [], [] => none
+    let got : Option (Option Nat) := if k = "none" then some none else k.toNat?.map some
+    match got with
+    | none => (s, "bad-op")
+    | some g =>
+      if s.qh != .ready then (s, "reject queue-handler-not-ready")
+      else if g != exp then (s, s!"reject model-pops {exp}")
+      else take s now .qhPop snapLists
+  | ["run", who, k, res] => match k.toNat? with
+    | none => (s, "bad-op")
+    | some t =>
+      let holds : Bool := if who = "qh" then s.qh == .hold t else if who = "sh" then s.sh == .holdRun t else false
+      if !holds then (s, s!"reject {who}-does-not-hold-task") else
+      let r := runResOf s t
+      if resName r != res then (s, s!"reject model-result {resName r}")
+      else take s now (if who = "qh" then .runQ else .runS) (both · t)
+  | ["spawn", k] => match k.toNat? with
+    | none => (s, "bad-op")
+    | some t =>
+      if s.qh == .pre t then take s now .spawnQ snapLists
+      else if s.sh == .pre t then take s now .spawnS snapLists
+      else (s, "reject no-handler-in-pre-state")
+  | ["fnbegin", k] => match k.toNat? with
+    | some t => take s now (.fnBegin t) (fun s' => s!"ctxdone={b01 (s'.tasks t).ctxDone}") | none => (s, "bad-op")
+  | ["fnend", k] => match k.toNat? with
+    | some t => take s now (.fnEnd t) (fun _ => "-") | none => (s, "bad-op")
+  | ["finish", k] => match k.toNat? with
+    | some t => take s now (.finish t) (both · t) | none => (s, "bad-op")
+  | ["slotfree", k] => match k.toNat? with
+    | none => (s, "bad-op")
+    | some t => match step s now (.slotFree t false) with
+      | some s' => (s', snapLists s')
+      | none => match step s now (.slotFree t true) with
+        | some s' => (s', snapLists s')
+        | none => (s, "reject no-released-watcher")
+  | ["shfetch", "none"] =>
+    if s.sh != .idle then (s, "reject schedule-handler-busy")
+    else if fetchRes (setNow s now) != .none then (s, "reject model-fetch-differs") else take s now .shFetch (fun _ => "-")
+  | ["shfetch", kind, k] => match k.toNat? with
+    | none => (s, "bad-op")
+    | some t =>
+      let exp : Option FetchRes := match kind with
+        | "notdue" => some (.notDue t) | "run" => some (.run t) | "asap" => some (.asap t) | _ => none
+      match exp with
+      | none => (s, "bad-op")
+      | some e =>
+        if s.sh != .idle then (s, "reject schedule-handler-busy")
+        else if fetchRes (setNow s now) != e then (s, "reject model-fetch-differs")
+        else take s now .shFetch (fun s' => snapTask (s'.tasks t))
+  | _ => (s, "bad-op")
+
+def handle (s : St) (line : String) : St × String :=
+  if line.startsWith "scn " then (s, "ok")
+  else if line.startsWith "i " then (s, "-")
+  else if line.startsWith "e " then
+    let front := (line.splitOn " | ").headD ""
+    match PB.Drv.words front with
+    | _ :: n :: rest => match n.toNat? with
+      | some now => if now < s.now then (s, "reject clock-went-back") else handleEv s now rest
+      | none => (s, "bad-op")
+    | _ => (s, "bad-op")
+  else (s, "bad-op")
+
+end PB.Drv.C07
+
+def main : IO Unit := PB.Drv.runState PB.Tasks.init PB.Drv.C07.handle
